@@ -108,6 +108,22 @@ CLAIMED = {
    note="Trusted: Coq kernel + vm_compute; the hand-written model Engine/Engine.v is tied to bardic/runtime/engine.py only by the correspondence run (generated stories x histories, every step's result kind and full view compared inside Coq); author code is an arbitrary oracle record in the theorems and the mini-Python of Lang/PyMini.v in the correspondence; harness (generator, term printers). Assumes effect-free display expressions/conditions and no in-place effect of a failing statement before it fails.",
    technique='Coq proofs over the engine model (arbitrary author-code oracle) + vm_compute correspondence on generated stories x histories + direct oracles',
    design_ref="DESIGN.md §6 C15"),
+ "C06": dict(
+   category="proof",
+   text="Theorems in coq/Props/C06.v (closed) about a Gallina model of _serialize_value/_deserialize_value and the per-variable save/load: "
+        "for every supported value tree (JSON scalars, lists, tuples, string-keyed dicts, registered plain-attribute objects, custom "
+        "to_save_dict/from_save_dict objects whose two functions are mutually inverse - nested to any depth in any combination) "
+        "deser (json_rt (ser v)) = tuples_to_lists v; idempotence; names bound by import lines keep their binding across a load and are not "
+        "saved; whole-state round trip.  The refuted variants of the pre-fix code (class saved as null, underscore attributes dropped, "
+        "to_save_dict result not recursed) are machine-checked theorems about the model's `legacy` configuration and each was a real failing "
+        "input, now fixed.  Tie: generated value trees built as REAL Python objects (test classes in a temp module + stdlib Wallet/Inventory/"
+        "Relationship) put into a real engine, save_state -> json.dumps -> json.loads -> load_state into a fresh engine, compared by type, "
+        "attributes and method results; ser/deser of the model vs the real functions inside Coq; the harness probes which of the three repaired "
+        "switches the tree under test has and fails if not all are on.",
+   note="Trusted: Coq kernel + vm_compute; model tied by the correspondence run; json.dumps/loads taken as the identity on JSON trees; user "
+        "to_save_dict/from_save_dict are parameters assumed mutually inverse; floats and sets are outside `value` (Python oracle only).",
+   technique="Coq proof by induction on nested value trees + vm_compute correspondence on real objects through a real engine",
+   design_ref="DESIGN.md §6 C06"),
 }
 
 ALL = [f"C{i:02d}" for i in range(1, 21)]
